@@ -117,10 +117,7 @@ func parseMultiLocalisedUnicode(data []byte) (MultiLocalisedUnicode, error) {
 		recordStringBytes := data[stringOffset : stringOffset+stringLength]
 		recordStringUTF16 := make([]uint16, len(recordStringBytes)/2)
 		for j := 0; j < len(recordStringUTF16); j++ {
-			recordStringUTF16[j], err = binary.ReadU16Big(reader)
-			if err != nil {
-				return result, err
-			}
+			recordStringUTF16[j] = uint16(recordStringBytes[2*j])<<8 | uint16(recordStringBytes[2*j+1])
 		}
 		result.setString(language, country, string(utf16.Decode(recordStringUTF16)))
 
